@@ -19,7 +19,7 @@ CHECK_DEADLOCK FALSE
 NONE = {"k": "none", "v": "-", "w": "-", "g": "-", "s": "-", "e": "-", "c": "-"}
 INIT = {"p": {"k": NONE, "j": NONE}, "ext": "T", "proto": "P1", "revoked": "F"}
 
-PROXY_KINDS = ["proxy1", "proxyfwd", "proxy2", "goproxy", "proxyfunc", "proxyarr"]
+PROXY_KINDS = ["proxy1", "proxyfwd", "proxy2", "goproxy", "proxyfunc", "proxyarr", "proxyarr2"]
 
 
 def forwarding(chk, wd, binp, thorough):
@@ -29,7 +29,7 @@ def forwarding(chk, wd, binp, thorough):
         vs = []
         for k in PROXY_KINDS:
             maps = ["str", "sym", "idx"] if name == "cell" else ["str", "sym"] if name == "chain" else ["str"]
-            if k == "proxyarr":
+            if k in ("proxyarr", "proxyarr2"):
                 maps = [m for m in maps if m != "idx"]
             for m in maps:
                 vs.append((k, m, "plain"))
